@@ -7,7 +7,7 @@
 From Coq Require Import ZArith List Bool.
 From RecordUpdate Require Import RecordSet.
 From Common Require Import Res.
-From Core Require Import World Model Step Reach Rel_Frame Proofs_C03 Proofs_C03b Proofs_C03c Proofs_C03d Proofs_C03e.
+From Core Require Import World Model Step Reach Rel_Frame Proofs_C03 Proofs_C03b Proofs_C03c Proofs_C03d Proofs_C03e Proofs_C03f Proofs_C03g.
 Import ListNotations RecordSetNotations.
 Open Scope Z_scope.
 
@@ -111,6 +111,33 @@ Theorem C03_previous_prediction_playing :
   /\ a_uri w' = Some (trk x) /\ a_state w' = Playing /\ World.tl w' = World.tl w.
 Proof. exact previous_prediction_playing. Qed.
 Print Assumptions C03_previous_prediction_playing.
+
+Theorem C03_previous_prediction_paused :
+  forall shuf f x c w, settled_on w c -> pstate w = Paused -> consume w = false -> accepts w x ->
+  previous_track (Some c) w = (Ok (Some x), w) ->
+  let w' := run_world shuf (S f) w [Previous; Deliver; Deliver; Deliver] in
+  current w' = Some x /\ pstate w' = Paused /\ pending w' = None /\ queue w' = []
+  /\ a_uri w' = Some (trk x) /\ a_state w' = Paused /\ World.tl w' = World.tl w.
+Proof. exact previous_prediction_paused. Qed.
+Print Assumptions C03_previous_prediction_paused.
+
+Theorem C03_previous_prediction_stopped :
+  forall shuf f x c w, settled_on w c -> pstate w = Stopped -> accepts w x ->
+  previous_track (Some c) w = (Ok (Some x), w) ->
+  let w' := run_world shuf (S f) w [Previous] in
+  current w' = Some x /\ pstate w' = Stopped /\ pending w' = None /\ queue w' = []
+  /\ World.tl w' = World.tl w.
+Proof. exact previous_prediction_stopped. Qed.
+Print Assumptions C03_previous_prediction_stopped.
+
+Example C03_previous_paused_example :
+  let w := run_world shuf_concrete 50 (init_world 50 [Playable; Playable; Playable] [Some 900; Some 900; Some 900] [] None None)
+             [Add [0; 1; 2] None; Play (Some 2); Deliver; Deliver; Deliver; Deliver; Pause; Deliver; Deliver; Deliver] in
+  let w' := run_world shuf_concrete 50 w [Previous; Deliver; Deliver; Deliver] in
+  option_map tlid (current w) = Some 2 /\ pstate w = Paused /\ queue w = [] /\ pending w = None
+  /\ option_map tlid (current w') = Some 1 /\ pstate w' = Paused /\ a_state w' = Paused /\ queue w' = [].
+Proof. vm_compute. repeat split; reflexivity. Qed.
+Print Assumptions C03_previous_paused_example.
 
 Theorem C03_eot_prediction_playing :
   forall shuf f x c len w, settled_on w c -> pstate w = Playing -> consume w = false -> a_atf_done w = false ->
@@ -314,3 +341,28 @@ Example C03_single_example :
   /\ option_map tlid (current w2) = Some 2 /\ pstate w2 = Playing.
 Proof. vm_compute. repeat split; reflexivity. Qed.
 Print Assumptions C03_single_example.
+
+(* consume at the end of the list: the last entry finished playing and was succeeded by the end
+   of the list - the player stops and exactly that entry has left the tracklist (announced by
+   tracklist_changed between the state change and ended). *)
+Theorem C03_consume_last_entry_removed :
+  forall shuf f pre c x len w,
+  World.tl w = pre ++ [c] -> In x pre -> NoDup (map tlid (World.tl w)) ->
+  consume w = true -> random w = false -> repeat w = false -> single w = false ->
+  settled_on w c -> pstate w = Playing -> a_atf_done w = false -> len_of w (trk c) = Some len ->
+  let w' := run_world shuf (S f) w [AboutToFinish; Deliver] in
+  current w' = None /\ pstate w' = Stopped /\ pending w' = None /\ queue w' = []
+  /\ a_uri w' = None
+  /\ World.tl w' = filter (fun t => negb (tlid t =? tlid c)) (World.tl w)
+  /\ events w' = EvEnded c (a_pos w) :: EvTracklistChanged :: EvStateChanged Playing Stopped :: events w.
+Proof. exact consume_last_entry_removed. Qed.
+Print Assumptions C03_consume_last_entry_removed.
+
+Example C03_consume_last_example :
+  let w := run_world shuf_concrete 50 (init_world 50 [Playable; Playable; Playable] [Some 900; Some 900; Some 900] [] None None)
+             [Add [0; 1; 2] None; SetMode 0 true; Play (Some 3); Deliver; Deliver; Deliver; Deliver] in
+  let w' := run_world shuf_concrete 50 w [AboutToFinish; Deliver] in
+  option_map tlid (current w) = Some 3 /\ pstate w = Playing /\ queue w = [] /\ consume w = true
+  /\ current w' = None /\ pstate w' = Stopped /\ map tlid (World.tl w') = [1; 2].
+Proof. vm_compute. repeat split; reflexivity. Qed.
+Print Assumptions C03_consume_last_example.
